@@ -228,7 +228,7 @@ func runC06(t *testing.T, seed uint64, planJSON []byte, tier string) (res *Resul
 		plan = genC06Plan(seed, tier, mode)
 		tape = simkit.NewTape(seed)
 	}
-	res.Harness = runBubble(t, func(t *testing.T) {
+	res.Harness = runBubbleP(t, plan, func(t *testing.T) {
 		sim := simkit.NewSim(tape)
 		sim.Known = loadKnown("C06")
 		sim.MaxStep = 2000000
